@@ -4,4 +4,5 @@ Extraction "c03_model.ml" opt_sizes batch_partitioning create repartition split_
   indexed_subset complement split_at_element element it_deref it_incr it_decr it_advance transform
   repartition_by_class class_sizes elems nelems sizes
   cv_same_size cv_indexed cv_fully_indexed cv_balanced cv_batch validation training
-  valid_members valid_perm view_to_dataset binary_indices indexed_order.
+  valid_members valid_perm view_to_dataset binary_indices indexed_order
+  binary_sub_problem view_of view_subset view_get vi_dataset_index to_dataset class_order class_order_loop repartition_by_class_loop.
